@@ -55,4 +55,9 @@ TEXTS["C12"] = {
     "note": "Real api/ipfsproxy and adderutils from /repo over real HTTP; cluster/consensus/connector RPC services are recording fakes, the daemon is an httptest server.",
     "technique": "property-based differential testing of a proxy against recording fakes on both sides (rapid)",
 }
+TEXTS["C11"] = {
+    "level": "Generated-input search over raw HTTP requests (every route and method, valid/invalid CIDs, paths, peer IDs, bodies, each pin option valid or invalid, unknown paths and wrong methods, four credential states on servers with and without configured credentials) and over every method of the bundled client with generated arguments; a recording RPC layer behind the real REST API shows exactly which cluster operation ran with which decoded argument. Oracles: 401 and nothing executed without valid credentials; 4xx and nothing executed for any malformed element; otherwise exactly the named operation with the CID/path/options sent; single JSON document bodies; the client delivers its arguments and returns the server's answer or error. Exploration level.",
+    "note": "Real api/rest, api/rest/client and api types from /repo over real HTTP on loopback; the cluster behind the API is a recording fake.",
+    "technique": "property-based differential testing of an API layer against a recording back end (rapid)",
+}
 PENDING = {}
